@@ -49,7 +49,11 @@ impl Prop for C11Prop {
             cfg.tab_width = *t.pick(&[2, 4, 2, 3, 1]);
             cfg.continuation_indents = *t.pick(&[2, 1, 2]);
         }
-        let policy = if simple { Some(crate::gen::layout::CommentPolicy::LineEdges) } else { None };
+        let policy = if simple {
+            Some(if t.chance(1, 3) { crate::gen::layout::CommentPolicy::LineEdgesMid } else { crate::gen::layout::CommentPolicy::LineEdges })
+        } else {
+            None
+        };
         let tight = stream.ends_with("tight");
         let w = wf::build(t, if tight { 60 } else { wf::fuel_for(stream.trim_start_matches("simple")).min(90) }, opts, policy, None)?;
         if !w.input.is_ascii() {
@@ -91,6 +95,8 @@ impl Prop for C11Prop {
         logf.push(if max_line(&o2) > w2 { "wide-result-overflows".into() } else { "wide-result-fits".into() });
         let fits2in1 = max_line(&o2) <= w1;
         if fits2in1 && o1 != o2 {
+            let same_count = o1.split('\n').count() == o2.split('\n').count();
+            logf.push(if same_count { "same-line-count".into() } else { "different-line-count".into() });
             return Outcome::Fail(
                 Failure::new(
                     "limit-not-style",
